@@ -85,6 +85,9 @@ pub struct Side {
     /// a callback unwound in the middle of a mutate: recorded sizes may differ
     /// from re-measured ones for these keys
     pub desynced: BTreeSet<u16>,
+    /// entries of a clone whose values measure less than what was recorded
+    /// for their originals (spare capacity is not cloned): recorded >= measured
+    pub shrunk: BTreeSet<u16>,
 }
 
 impl Side {
@@ -145,6 +148,8 @@ pub struct World {
     /// stale and the bound may be broken (both allowed by C16 for panics
     /// outside the closure); only structural promises are judged
     pub post_panic: bool,
+    /// observation of a fresh clone: recorded sizes may exceed re-measured ones
+    pub lenient_sizes: bool,
 }
 
 #[macro_export]
@@ -186,6 +191,7 @@ impl World {
             alloc_installed: crate::alloc_installed(),
             last_counts: [0; 9],
             post_panic: false,
+            lenient_sizes: false,
         };
         let limit = w.resolve_limit_initial(&cfg.limit);
         let side = w.new_side(limit, cfg.capacity.map(|c| c as usize));
@@ -257,6 +263,7 @@ impl World {
             last_obs: Obs::default(),
             last_fp: Vec::new(),
             desynced: BTreeSet::new(),
+            shrunk: BTreeSet::new(),
         };
         side.last_fp = side.cache().verif_fingerprint();
         side.last_obs = Obs {
@@ -376,7 +383,7 @@ impl World {
             let mut items: Vec<Item> = Vec::with_capacity(structure.addrs.len());
             for (k, v) in cache.iter() {
                 items.push(Item {
-                    k: k.k, key_id: k.id, val_id: v.id, kheap: k.heap, vheap: v.heap, tag: v.tag,
+                    k: k.k, key_id: k.id, val_id: v.id, kheap: k.heap, vheap: v.measured(), tag: v.tag,
                     kaddr: k as *const TKey as usize, vaddr: v as *const TVal as usize,
                 });
                 if items.len() > structure.addrs.len() + 2 {
@@ -480,14 +487,15 @@ impl World {
                 sum_measured = sum_measured.wrapping_add(measured);
                 if let Some(&rec) = structure.sizes.get(i) {
                     sum_recorded = sum_recorded.wrapping_add(rec);
-                    if rec != measured && !side.desynced.contains(&it.k) && !self.post_panic {
+                    if rec != measured && !side.desynced.contains(&it.k) && !self.post_panic
+                        && !((self.lenient_sizes || side.shrunk.contains(&it.k)) && rec > measured) {
                         fails.push((vec!["C02"], "recorded-size".into(),
                             format!("entry {} has recorded size {} but entry_size(key, value) is {}",
                                 it.k, rec, measured)));
                     }
                 }
             }
-            if side.desynced.is_empty() && !self.post_panic {
+            if side.desynced.is_empty() && side.shrunk.is_empty() && !self.post_panic && !self.lenient_sizes {
                 if sum_measured != cur {
                     fails.push((vec!["C02"], "sum".into(),
                         format!("current_size() = {} but the sum of entry_size over iter() is {}",
@@ -635,6 +643,28 @@ impl World {
                     }
                 }
             }
+        }
+    }
+
+    /// Evicted entries are dropped oldest first: every part of an earlier
+    /// victim is dropped before any part of a later one.
+    pub fn expect_evicted_in_order(&mut self, ents: &[Ent], ctx: &str) {
+        let mut last_max = 0u64;
+        let mut last_k = 0u16;
+        for (i, e) in ents.iter().enumerate() {
+            let seqs: Vec<u64> = [e.key_id, e.val_id].iter()
+                .filter_map(|id| tracked::obj(*id)).filter(|o| o.st == St::Dropped).map(|o| o.drop_seq).collect();
+            if seqs.len() != 2 {
+                return;
+            }
+            let (mn, mx) = (*seqs.iter().min().unwrap(), *seqs.iter().max().unwrap());
+            if i > 0 && mn < last_max {
+                self.fail(vec!["C03"], "evicted-out-of-order".into(),
+                    format!("{}: entry {} (more recently used) was dropped before entry {} (older); eviction must go oldest first", ctx, e.k, last_k));
+                return;
+            }
+            last_max = mx;
+            last_k = e.k;
         }
     }
 
